@@ -13,7 +13,6 @@ mod pblockgen;
 mod elfgen;
 mod cli;
 mod par;
-mod irgen;
 mod walkgen;
 mod walkrun;
 mod exprgen;
